@@ -256,7 +256,15 @@ fn mixed_script(r: &mut Rng, p: &Prof, ssrc: u32, long: bool) -> Built {
             if let R::Ok(raw) = ctx_protect(&mut twin, &pk) { twin_last_rtp = Some(raw); }
             ops.push(Op::TxRtp(pk, (idx / 65536) as u32));
             sent.push(false);
+            let is_first_datagram = last_rtp.is_none();
             last_rtp = Some(sent.len() - 1);
+            if is_first_datagram && r.chance(2, 3) {
+                // forgeries reach the context before its first genuine packet
+                for _ in 0..r.range(1, 3) {
+                    if r.chance(1, 3) { ops.push(Op::RxFlip(sent.len() - 1, *r.pick(&[16usize, 17, 18, 31, 70, 100]))); }
+                    else { ops.push(Op::RxRawRtp(forge_rtp(r, ssrc, twin_last_rtp.as_ref(), p, (idx % 65536) as u16))); }
+                }
+            }
             ops.push(Op::RxGen(sent.len() - 1));
         } else if k < 38 {
             let rr = gen_rtcp(r, ssrc);
@@ -302,6 +310,27 @@ fn corpus(p: &Prof, ssrc: u32) -> Vec<Built> {
     v.push(Built { warm: vec![], ops: vec![Op::TxRtp(pk(65000), 0), Op::RxGen(0), Op::RxRawRtp(far(100)), Op::RxRawRtp(far(32233)), Op::RxRawRtp(far(32232)),
         Op::TxRtp(pk(65001), 0), Op::RxGen(1), Op::TxRtp(pk(2), 1), Op::RxGen(2), Op::RxRawRtp(far(40000)), Op::RxGen(1), Op::RxGen(2)],
         kind: "corpus".into(), shape: "forged sequence numbers far ahead".into() });
+    // a forged / corrupted datagram is the FIRST datagram a fresh context ever sees (its sequence number
+    // 1, 32767, 32768, 32769, 40000 away from the genuine start), then the genuine stream: the rejected
+    // datagram must not anchor the rollover estimate -- the shadow receiver accepts the same packets
+    for s0 in [100u16, 65000] {
+        for d in [1u16, 32767, 32768, 32769, 40000] {
+            let mut ops = vec![];
+            for k in 0..4u16 { let q = s0.wrapping_add(k); ops.push(Op::TxRtp(pk(q), if q < s0 { 1 } else { 0 })); }
+            ops.push(Op::RxRawRtp(far(s0.wrapping_add(d))));
+            for k in 0..4 { ops.push(Op::RxGen(k)); }
+            v.push(Built { warm: vec![], ops, kind: "corpus".into(), shape: format!("forged first datagram, seq {}+{}", s0, d) });
+        }
+        // corrupted copies of later genuine packets overtake the first genuine packet (sequence MSBs flipped)
+        let mut ops = vec![];
+        for k in 0..4u16 { let q = s0.wrapping_add(k); ops.push(Op::TxRtp(pk(q), if q < s0 { 1 } else { 0 })); }
+        ops.push(Op::RxFlip(1, 16));
+        ops.push(Op::RxFlip(2, 16));
+        ops.push(Op::RxFlip(2, 17));
+        ops.push(Op::RxTrunc(3, 20));
+        for k in 0..4 { ops.push(Op::RxGen(k)); }
+        v.push(Built { warm: vec![], ops, kind: "corpus".into(), shape: format!("corrupted copies of later packets first, start {}", s0) });
+    }
     v
 }
 
@@ -324,7 +353,10 @@ fn session_case(r: &mut Rng, p: &Prof) -> (serde_json::Value, Option<String>, St
         let R::Ok(raw) = sess_protect(&mut tx, &pk) else { fail.get_or_insert("protect failed".into()); continue };
         // forgeries before the genuine packet: on the live SSRC and on fresh SSRCs (table stays below the watermark)
         for _ in 0..r.below(4) {
-            let f = if r.chance(1, 2) || fresh >= 20 {
+            let f = if r.chance(1, 4) {
+                // genuine body under a sequence number far ahead (also as the very first datagram of the SSRC)
+                let mut v = raw.clone(); let q = pk.header.sequence_number.wrapping_add(*r.pick(&[32769u16, 40000, 32768, 50000])); v[2..4].copy_from_slice(&q.to_be_bytes()); v
+            } else if r.chance(1, 2) || fresh >= 20 {
                 let mut v = raw.clone(); let n = v.len(); let i = r.range(2, n as u64 - 1) as usize; v[i] ^= 1 << r.below(8); if i >= 8 && i < 12 { v[i] ^= 0; } v
             } else {
                 fresh += 1;
